@@ -518,7 +518,8 @@ def gen_sim_case(rng, thorough, grad, k=0):
     lopts = {'method': method}
     if method in ('prism', 'cylinder'):
         lopts['ellipse'] = rand_ellipse(rng, hs)
-    if rng.random() < 0.4 and (li or method in ('midpoint', 'source', 'receiver')):
+    single = method in ('midpoint', 'source', 'receiver')
+    if (li or single) and (rng.random() < 0.4 or (grad and single and k % 2 == 0)):
         lopts['merge'] = True
     with_data = grad or rng.random() < 0.6
     survey, pattern = rand_survey(rng, grid, hs, org, rng.randint(1, 2), rng.randint(1, 3 if grad else 4),
@@ -788,8 +789,13 @@ def compare_grad(c, answers, dis):
         tot[2] += np.array([float(fr(p)) for p in g2]).reshape(shape)
     with warnings.catch_warnings():
         warnings.simplefilter('ignore')
-        raw = np.array(sim._compute_1d(gradient=True))
-        grad = np.array(sim.gradient)
+        try:
+            raw = np.array(sim._compute_1d(gradient=True))
+            grad = np.array(sim.gradient)
+        except Exception as e:    # noqa
+            dis.append({'what': 'layered gradient raised where the model returns a gradient',
+                        'case': sim_brief(c), 'impl': repr(e)})
+            return
     misfit = float(sim.misfit)
     scale = 1e-7 * max(np.max(np.abs(tot)), 1e-300)
     if np.max(np.abs(raw - tot)) > scale + 1e-9 * misfit / 1e-4 / max(1e-3, float(np.min(np.abs(
@@ -916,10 +922,12 @@ def expand_layers(lay, nodes_z):
     return idx
 
 
-def search_case(seed, thorough=False):
+def search_case(seed, thorough=False, skip=()):
     """Property checked directly on the implementation, laterally invariant model.
     Includes relative receivers, log-map profiles with stored value -1 on top,
-    merge=True, and the gradient with merge=True."""
+    merge=True, and the gradient with merge=True.  Three blocks ('resp', 'extract',
+    'grad'); a block named in [skip] does not report (used to look for further,
+    independent failures once one block has failed)."""
     import random
     import emg3d
     rng = random.Random(seed)
@@ -931,6 +939,11 @@ def search_case(seed, thorough=False):
         for nm in ('property_x', 'property_z'):
             if getattr(model, nm) is not None:
                 getattr(model, nm)[:, :, 0] = -1.0
+    if (seed // 2) % 2 == 0:
+        # two equal neighbouring layers (all properties): merge=True has something to merge
+        k = rng.randint(1, model.shape[2] - 1)
+        for nm in model._def_properties:
+            getattr(model, nm)[:, :, k] = getattr(model, nm)[:, :, k - 1]
     vti = case == 'VTI'
     base = dict(seed=seed, mapping=mapping, case=case, hx=hs[0], hy=hs[1], hz=hs[2], origin=org,
                 profile_x=model.property_x[0, 0, :].tolist())
@@ -972,32 +985,32 @@ def search_case(seed, thorough=False):
                                    tqdm_opts=False, gridding='same', verb=-1)
             sim.compute()
         syn = sim.data.synthetic.data
-        if not np.array_equal(np.isnan(syn), ~fin):
-            return dict(base, signature='layered mode: computed triples are not exactly those with finite '
+        if 'resp' not in skip and not np.array_equal(np.isnan(syn), ~fin):
+            return dict(base, block='resp', signature='layered mode: computed triples are not exactly those with finite '
                         'observed data', layered_opts=lo, observed_finite=fin.tolist(),
                         computed=(~np.isnan(syn)).tolist())
         bad = [k for k in zip(*np.nonzero(fin)) if not rel_close(syn[k], ref[k], 1e-8)]
-        if bad:
+        if bad and 'resp' not in skip:
             k = tuple(int(x) for x in bad[0])
-            return dict(base, signature='layered response on a laterally invariant model differs from '
+            return dict(base, block='resp', signature='layered response on a laterally invariant model differs from '
                         'empymod.bipole of its layers at the absolute receiver position', layered_opts=lo,
                         triple=k, receiver_relative=bool(recs[k[1]].relative), observed_value=str(syn[k]),
                         required=str(ref[k]))
         sims.append(sim)
     # weights and layers (merged layers expanded back onto the column)
-    for q in range(6):
+    for q in (range(6) if 'extract' not in skip else ()):
         m = rng.choice(['midpoint', 'prism', 'cylinder'])
         e = rand_ellipse(rng, hs)
         mg = q % 2 == 1
         p0, p1 = rand_point(rng, grid, hs, org), rand_point(rng, grid, hs, org)
         lay, im = model.extract_1d(m, p0, p1, ellipse=e, merge=mg, return_imat=True)
         if im.min() < 0 or abs(im.sum() - 1) > 1e-12:
-            return dict(base, signature='extraction weights are not non-negative with sum one', method=m,
+            return dict(base, block='extract', signature='extraction weights are not non-negative with sum one', method=m,
                         ellipse=e, p0=p0, p1=p1, min=float(im.min()), sum=float(im.sum()))
         ln = lay.grid.nodes_z
         if abs(ln[0] - grid.nodes_z[0]) > 1e-9 or abs(ln[-1] - grid.nodes_z[-1]) > 1e-9 or \
                 any(np.min(np.abs(grid.nodes_z - z)) > 1e-9 for z in ln):
-            return dict(base, signature='interfaces of the extracted 1D model are not interfaces of the column '
+            return dict(base, block='extract', signature='interfaces of the extracted 1D model are not interfaces of the column '
                         'from top to bottom', method=m, merge=mg, p0=p0, p1=p1, observed_value=ln.tolist(),
                         required=grid.nodes_z.tolist())
         idx = expand_layers(lay, grid.nodes_z)
@@ -1005,11 +1018,13 @@ def search_case(seed, thorough=False):
             got = getattr(lay, nm)[0, 0, :][idx]
             req = getattr(model, nm)[0, 0, :]
             if not all(rel_close(a, b, 1e-10, float(np.max(np.abs(req)))) for a, b in zip(got, req)):
-                return dict(base, signature='extracted layers of a laterally invariant model differ from its profile',
+                return dict(base, block='extract', signature='extracted layers of a laterally invariant model differ from its profile',
                             method=m, merge=mg, ellipse=e, p0=p0, p1=p1, prop=nm, observed_value=got.tolist(),
                             required=req.tolist())
     # gradient layer sums vs misfit change under a uniform perturbation of the layer:
     # one setting without and one with layered_opts merge=True
+    if 'grad' in skip:
+        return None
     nomerge = [k for k, lo in enumerate(opts) if not lo.get('merge')]
     merged = [k for k, lo in enumerate(opts) if lo.get('merge')]
     for sim in (sims[rng.choice(nomerge)], sims[rng.choice(merged)]):
@@ -1019,7 +1034,7 @@ def search_case(seed, thorough=False):
             try:
                 raw = np.array(sim._compute_1d(gradient=True))
             except Exception as e:    # noqa
-                return dict(base, signature='layered gradient raised on a valid problem',
+                return dict(base, block='grad', signature='layered gradient raised on a valid problem',
                             layered_opts=dict(sim.layered_opts), error=repr(e))
         for comp, cond in ((0, ch), (2, cv)):
             if cond is None:
@@ -1042,7 +1057,7 @@ def search_case(seed, thorough=False):
                 got = raw[comp, :, :, k].sum()
                 tol = 1e-6 * abs(req) + 1e-8 * phi0 / delta
                 if abs(got - req) > tol:
-                    return dict(base, signature='layer sum of the layered FD gradient differs from the misfit '
+                    return dict(base, block='grad', signature='layer sum of the layered FD gradient differs from the misfit '
                                 'change under a uniform perturbation of the layer',
                                 layered_opts=dict(sim.layered_opts), component='hv'[comp // 2], layer=k,
                                 observed_value=float(got), required=float(req))
@@ -1052,20 +1067,32 @@ def search_case(seed, thorough=False):
 def search(ctx, broken):
     rng = ctx.rng
     n = 24 if ctx.thorough else 8
-    hits = []
+    hits, sigs = [], set()
     for _ in range(n):
         seed = rng.randint(0, 2 ** 40)
-        try:
-            h = search_case(seed, ctx.thorough)
-        except Exception as e:    # noqa -- a valid problem must not raise
-            import traceback
-            h = {'signature': 'layered mode raised on a valid laterally invariant problem', 'seed': seed,
-                 'error': repr(e), 'trace': traceback.format_exc()[-1200:]}
-        if h:
-            hits.append(h)
+        skip = set()
+        for _ in range(3):        # after a failing block, look for independent failures in the others
+            try:
+                h = search_case(seed, ctx.thorough, tuple(sorted(skip)))
+            except Exception as e:    # noqa -- a valid problem must not raise
+                import traceback
+                h = {'signature': 'layered mode raised on a valid laterally invariant problem', 'seed': seed,
+                     'skip': sorted(skip), 'error': repr(e), 'trace': traceback.format_exc()[-1200:]}
+            if not h:
+                break
+            h['skip'] = sorted(skip)
+            if h['signature'] not in sigs:
+                sigs.add(h['signature'])
+                hits.append(h)
+            if 'block' not in h:
+                break
+            skip.add(h['block'])
+        if len(hits) >= 3:
             break
-    ctx.notes.append(f"searcher: {n} laterally invariant random problems x 7 method/ellipse settings; "
-                     "responses vs empymod of the profile, finite mask, weights, gradient layer sums")
+    ctx.notes.append(f"searcher: up to {n} laterally invariant random problems (relative receivers, -1 on top of "
+                     "log maps, merge) x 8 method/ellipse/merge settings; responses vs empymod of the profile at "
+                     "the absolute receiver position, finite mask, weights, layers and interfaces (merged models "
+                     "expanded), gradient layer sums with and without merge")
     return hits
 
 
@@ -1074,7 +1101,8 @@ def replay(ctx, payload):
     if not fi or 'seed' not in fi:
         return False
     try:
-        return search_case(int(fi['seed']), payload.get('tier') == 'thorough') is None
+        return search_case(int(fi['seed']), payload.get('tier') == 'thorough',
+                           tuple(fi.get('skip', ()))) is None
     except Exception:    # noqa
         return False
 
